@@ -463,6 +463,100 @@ theorem stereo_level (g0 g1 g2 g3 g4 : ℝ) (h0 : 0 ≤ g0) (h1 : 0 ≤ g1) (h2 
           Real.rpow_le_rpow_of_exponent_ge (by norm_num) (by norm_num) (by linarith)
     · exact Real.rpow_le_one (by norm_num) (by norm_num) (by linarith)
 
+/-! ### `extra_pos_vertical_nominal`: which mid-layer channels get an extra loudspeaker -/
+
+/-- the azimuth limit of `extra_pos_vertical_nominal` for the layer `[lb, ub]` -/
+noncomputable def azLimit (nominal : List (ℝ × ℝ)) (lb ub : ℝ) : ℝ :=
+  let inLayer := nominal.filter fun x => decide (lb ≤ x.2 ∧ x.2 ≤ ub)
+  if inLayer.isEmpty then 0 else maxList (inLayer.map fun x => |x.1|) + 40
+
+theorem absS_real (x : ℝ) : absS x = |x| := by
+  simp only [absS, max_real, zero_real, zero_sub]; rfl
+
+theorem maxList_ge : ∀ (l : List ℝ) (x : ℝ), x ∈ l → x ≤ maxList l
+  | [], x, h => by simp at h
+  | [y], x, h => by simp at h; simp [maxList, h]
+  | y :: z :: zs, x, h => by
+    simp only [maxList, max_real]
+    rcases List.mem_cons.mp h with rfl | h
+    · exact le_max_left _ _
+    · exact le_trans (maxList_ge (z :: zs) x h) (le_max_right _ _)
+
+/-- Which mid-layer channels get an extra (virtual) loudspeaker in a layer: exactly the channels with nominal
+    elevation in [-10, 10] whose |nominal azimuth| is at least the limit minus 1e-5. -/
+theorem extra_mem_iff (nominal : List (ℝ × ℝ)) (lb ub : ℝ) (k : Nat) :
+    k ∈ extraChannels nominal lb ub ↔
+      ∃ az el, nominal[k]? = some (az, el) ∧ -10 ≤ el ∧ el ≤ 10 ∧ azLimit nominal lb ub - 1 / 100000 ≤ |az| := by
+  have hc1 : (((-10 : Rat)) : ℝ) = -10 := by push_cast; rfl
+  have hc2 : (((10 : Rat)) : ℝ) = 10 := by push_cast; rfl
+  have hc3 : (((40 : Rat)) : ℝ) = 40 := by push_cast; rfl
+  have hc4 : (((1 / 100000 : Rat)) : ℝ) = 1 / 100000 := by push_cast; rfl
+  have habs : (fun x : ℝ × ℝ => absS x.1) = fun x => |x.1| := funext fun x => absS_real x.1
+  unfold extraChannels azLimit
+  simp only [List.mem_filter, List.mem_range, ofRat_real, zero_real, hc1, hc2, hc3, hc4, habs]
+  constructor
+  · rintro ⟨hk, h⟩
+    cases hn : nominal[k]? with
+    | none => simp [hn] at h
+    | some v =>
+      obtain ⟨az, el⟩ := v
+      simp only [hn, decide_eq_true_eq, absS_real] at h
+      exact ⟨az, el, rfl, h.1, h.2.1, h.2.2⟩
+  · rintro ⟨az, el, hn, h1, h2, h3⟩
+    have hk : k < nominal.length := by
+      by_contra hlt
+      rw [List.getElem?_eq_none (by omega)] at hn
+      simp at hn
+    refine ⟨hk, ?_⟩
+    simp only [hn, decide_eq_true_eq, absS_real]
+    exact ⟨h1, h2, h3⟩
+
+/-- If the layout has no loudspeaker in the layer, every mid-layer channel gets a copy there. -/
+theorem extra_all_mid_of_empty_layer (nominal : List (ℝ × ℝ)) (lb ub : ℝ)
+    (hempty : ∀ v ∈ nominal, ¬ (lb ≤ v.2 ∧ v.2 ≤ ub)) (k : Nat) :
+    k ∈ extraChannels nominal lb ub ↔ ∃ az el, nominal[k]? = some (az, el) ∧ -10 ≤ el ∧ el ≤ 10 := by
+  rw [extra_mem_iff]
+  have hl : azLimit nominal lb ub = 0 := by
+    unfold azLimit
+    have : (nominal.filter fun (x : ℝ × ℝ) => decide (lb ≤ x.2 ∧ x.2 ≤ ub)) = [] := by
+      rw [List.filter_eq_nil_iff]
+      intro v hv; simpa using hempty v hv
+    simp only [this, List.isEmpty_nil, if_true]
+  constructor
+  · rintro ⟨az, el, h, h1, h2, _⟩; exact ⟨az, el, h, h1, h2⟩
+  · rintro ⟨az, el, h, h1, h2⟩
+    exact ⟨az, el, h, h1, h2, by rw [hl]; have := abs_nonneg az; linarith⟩
+
+/-- The azimuth margin: with a loudspeaker of the layer at |azimuth| `A`, a mid-layer channel closer than
+    `A + 40 − 1e-5` to the front gets NO extra loudspeaker (so sources do not jump vertically there). -/
+theorem extra_margin (nominal : List (ℝ × ℝ)) (lb ub : ℝ) (v : ℝ × ℝ) (hv : v ∈ nominal) (hl : lb ≤ v.2 ∧ v.2 ≤ ub)
+    (k : Nat) (az el : ℝ) (hk : nominal[k]? = some (az, el)) (hclose : |az| < |v.1| + 40 - 1 / 100000) :
+    k ∉ extraChannels nominal lb ub := by
+  rw [extra_mem_iff]
+  rintro ⟨az', el', h, _, _, h3⟩
+  rw [hk] at h
+  simp only [Option.some.injEq, Prod.mk.injEq] at h
+  obtain ⟨rfl, rfl⟩ := h
+  have hmem : v ∈ nominal.filter fun (x : ℝ × ℝ) => decide (lb ≤ x.2 ∧ x.2 ≤ ub) := by
+    rw [List.mem_filter]; exact ⟨hv, by simpa using hl⟩
+  have hlim : |v.1| + 40 ≤ azLimit nominal lb ub := by
+    unfold azLimit
+    have hne : (nominal.filter fun (x : ℝ × ℝ) => decide (lb ≤ x.2 ∧ x.2 ≤ ub)).isEmpty = false := by
+      rw [List.isEmpty_eq_false_iff]; exact List.ne_nil_of_mem hmem
+    simp only [hne]
+    have hm : |v.1| ∈ List.map (fun x : ℝ × ℝ => |x.1|) (nominal.filter fun (x : ℝ × ℝ) => decide (lb ≤ x.2 ∧ x.2 ≤ ub)) :=
+      List.mem_map.mpr ⟨v, hmem, rfl⟩
+    have := maxList_ge _ |v.1| hm
+    simp only [Bool.false_eq_true, if_false]
+    linarith
+  linarith
+
+/-- The result lists each chosen channel once, in increasing order. -/
+theorem extra_sorted (nominal : List (ℝ × ℝ)) (lb ub : ℝ) :
+    (extraChannels nominal lb ub).Sublist (List.range nominal.length) := by
+  unfold extraChannels
+  exact List.filter_sublist
+
 /-! ### table obligations (re-checked against `configure()` on every run) -/
 
 /-- For each of the ten nominal layouts: every region's channel indices are in range and distinct, the vertex
@@ -491,10 +585,11 @@ theorem C05_partial :
     (type_of% @ngon_nonneg_unit) ∧ (type_of% @quad_nonneg_unit) ∧ (type_of% @quad_corner) ∧
     (type_of% @first_accept_inherits) ∧ (type_of% @first_accept_none_iff) ∧ (type_of% @panner_inherits) ∧
     (type_of% @panner_none_iff) ∧ (type_of% @downmix_nonneg_unit) ∧ (type_of% @stereo_level) ∧
-    (type_of% @tables_wellFormed) :=
+    (type_of% @tables_wellFormed) ∧ (type_of% @extra_mem_iff) ∧ (type_of% @extra_all_mid_of_empty_layer) ∧
+    (type_of% @extra_margin) ∧ (type_of% @extra_sorted) :=
   ⟨@triplet_nonneg, @triplet_norm_le_one, @triplet_unit_of_strict, @triplet_of_comb, @triplet_exact_at_vertex,
     @triplet_mirror, @ngon_nonneg_unit, @quad_nonneg_unit, @quad_corner, @first_accept_inherits,
     @first_accept_none_iff, @panner_inherits, @panner_none_iff, @downmix_nonneg_unit, @stereo_level,
-    @tables_wellFormed⟩
+    @tables_wellFormed, @extra_mem_iff, @extra_all_mid_of_empty_layer, @extra_margin, @extra_sorted⟩
 
 end Earverif.PointSource
